@@ -204,7 +204,7 @@ impl<'i> TokenRecognizer<'i> for Rec {
                     None
                 }
             }
-            Rec::Re(r) => r.find(input).map(|m| m.as_str()),
+            Rec::Re(r) => r.find(input).map(|m| m.as_str()).filter(|s| !s.is_empty()),
             Rec::Never => None,
         }
     }
